@@ -17,6 +17,7 @@ import (
 	v2 "mosn.io/mosn/pkg/config/v2"
 	"mosn.io/mosn/pkg/network"
 	"mosn.io/mosn/pkg/protocol"
+	"mosn.io/mosn/pkg/proxy"
 	"mosn.io/mosn/pkg/router"
 	"mosn.io/mosn/pkg/types"
 	"mosn.io/mosn/pkg/upstream/cluster"
@@ -293,13 +294,13 @@ func c17(args []string) int {
 	for _, k := range known {
 		knownSet[k] = true
 	}
-	run.Sum.Rule = "route part: generated route actions (rule kind prefix/path/regex/rpc/variable/dsl; request and response header parsers at route, virtual-host and router level with 0-3 additions (append nil/true/false; plain, %variable%, %undefined% and odd values) and 0-2 removals over a small overlapping key set with mixed case; prefix rewrite, regex rewrite with substitution, host rewrite / header-derived / auto (STRICT_DNS, other, absent cluster)) x generated requests (path with and without the matched prefix, unset/empty path, 0-4 headers). The real rule object is fetched from a real table and FinalizeRequestHeaders / FinalizeResponseHeaders are called on it. Non-trivial: at least two levels mutate a common key, or a rewrite applies; distinct by (action number, request). Plus redirect configurations (codes incl. unsupported, schemes incl. invalid, mixed case) and direct responses."
+	run.Sum.Rule = "route part: generated route actions (rule kind prefix/path/regex/rpc/variable/dsl; request and response header parsers at route, virtual-host and router level with 0-3 additions (append nil/true/false; plain, %variable%, %undefined% and odd values) and 0-2 removals over a small overlapping key set with mixed case; prefix rewrite, regex rewrite with substitution, host rewrite / header-derived / auto (STRICT_DNS, other, absent cluster)) x generated requests (path with and without the matched prefix, unset/empty path, 0-4 headers). The real rule object is fetched from a real table and FinalizeRequestHeaders / FinalizeResponseHeaders are called on it. Non-trivial: at least two levels mutate a common key, or a rewrite applies; distinct by (action number, request). Plus redirect configurations (codes incl. unsupported, schemes incl. invalid, mixed case) and direct responses; and the local reply of the real downStream.chooseHost (hook proxy.VerifChooseHostLocalReply) for redirect / direct-response routes over current scheme x host (with :80 / :443 / other / no port, IPv6 literal, unset) x path x query: status, location, body."
 	shHeader := "From MV Require Import Model.Router Model.RouteAction Gen.RouteSrc.\nFrom Coq Require Import List String.\nImport ListNotations.\nOpen Scope string_scope.\n"
-	sh := run.NewShard(shHeader, "ra_case", "ra_mismatches var_rule_finalizes dsl_rule_finalizes")
+	sh := run.NewShard(shHeader, "ra_case", "ra_mismatches var_rule_finalizes dsl_rule_finalizes redirect_strip")
 	flush := func() {
 		if sh.Len() >= 350 {
 			sh.Close()
-			sh = run.NewShard(shHeader, "ra_case", "ra_mismatches var_rule_finalizes dsl_rule_finalizes")
+			sh = run.NewShard(shHeader, "ra_case", "ra_mismatches var_rule_finalizes dsl_rule_finalizes redirect_strip")
 		}
 	}
 	nact := run.N(220, 2500)
@@ -506,6 +507,131 @@ func c17(args []string) int {
 		}
 		run.Count(fmt.Sprintf("%d|rd|%d", run.Seed, i), true, fmt.Sprintf("redirect-accepted=%v", err == nil))
 		sh.Add(fmt.Sprintf("CRdr (Build_redirect_cfg %s %s %s %s, %s)", CoqNat(rc.ResponseCode), CoqString(rc.PathRedirect), CoqString(rc.HostRedirect), CoqString(rc.SchemeRedirect), got), rep)
+		flush()
+	}
+
+	// ---------------- the local reply of downStream.chooseHost for redirect / direct-response routes (real proxy code through
+	// the add-only hook proxy.VerifChooseHostLocalReply): status, location, body
+	// protocol "vhrouter": its SCHEME resource is the x-mosn-scheme variable (registered names are "<protocol>_<name>")
+	variable.Register(variable.NewStringVariable("vhrouter_scheme", nil, func(ctx context.Context, _ *variable.IndexedValue, _ interface{}) (string, error) {
+		return variable.GetString(ctx, types.VarScheme)
+	}, nil, 0))
+	variable.RegisterProtocolResource(api.ProtocolName("vhrouter"), api.SCHEME, "scheme")
+	nurl := run.N(400, 4000)
+	okCodes := []int{0, 301, 302, 303, 307, 308}
+	okSchemes := []string{"", "", "http", "https", "HTTPS", "Http", "ws"}
+	for i := 0; i < nurl; i++ {
+		rc := v2.RedirectAction{ResponseCode: r.Pick(okCodes), SchemeRedirect: r.PickS(okSchemes),
+			PathRedirect: r.PickS([]string{"", "", "/new", "/", "/n/x.html"}),
+			HostRedirect: r.PickS([]string{"", "", "x.org", "x.org:8443", "x.org:80", "x.org:443", "[::1]:80"})}
+		rr := v2.Router{}
+		rr.Route.ClusterName = "c17url"
+		direct := r.Pct(15)
+		body := r.PickS([]string{"", "hello", "not found"})
+		status := r.Pick([]int{200, 404, 503})
+		if direct {
+			rr.DirectResponse = &v2.DirectResponseAction{StatusCode: status, Body: body}
+			if r.Bool() {
+				rr.Redirect = &rc // a direct response wins over a redirect
+			}
+		} else {
+			rr.Redirect = &rc
+		}
+		rcfg := &v2.RouterConfiguration{VirtualHosts: []v2.VirtualHost{{Name: "u", Domains: []string{"*"}, Routers: []v2.Router{rr}}}}
+		rcfg.RouterConfigName = "c17url"
+		rs, err := router.NewRouters(rcfg)
+		if err != nil {
+			fmt.Println("c17: unexpected construction error", err)
+			return 2
+		}
+		cur := map[string]string{
+			types.VarScheme:      r.PickS([]string{"http", "https", "http", "https", "ws"}),
+			types.VarHost:        r.PickS([]string{"a.com", "a.com:80", "a.com:443", "a.com:8080", "A.com:80", "[::1]:443", "a.com:"}),
+			types.VarPath:        r.PickS([]string{"/", "/p", "/p/q.html", "/a-b_c.d~e"}),
+			types.VarQueryString: r.PickS([]string{"", "", "q=1", "a=1&b=2"}),
+		}
+		if r.Pct(8) {
+			delete(cur, types.VarHost)
+		}
+		if r.Pct(8) {
+			delete(cur, types.VarPath)
+		}
+		q := reqT{Vars: cur, Hdr: map[string]string{"k1": "v1"}}
+		ctx, hm := q.ctx()
+		variable.Set(ctx, types.VariableDownStreamProtocol, api.ProtocolName("vhrouter"))
+		rt := rs.MatchRoute(ctx, hm)
+		if rt == nil {
+			fmt.Println("c17: catch-all route did not match")
+			return 2
+		}
+		var replied bool
+		var gotStatus int
+		var gotHdr api.HeaderMap
+		var gotBody string
+		guarded("chooseHost", q, func() { replied, gotStatus, gotHdr, gotBody = proxy.VerifChooseHostLocalReply(ctx, rt, hm) })
+		reportPanics(run, "c17", map[string]interface{}{"redirect": rc, "direct": direct})
+		gotLoc := ""
+		if gotHdr != nil {
+			gotLoc, _ = gotHdr.Get("location")
+		}
+		rep := map[string]interface{}{"part": "local-reply", "redirect": rc, "direct_response": rr.DirectResponse, "current": cur, "got_status": gotStatus, "got_location": gotLoc, "got_body": gotBody}
+		if !replied {
+			run.Fail("c17:local-reply:not-answered-locally", "a route with a redirect / direct response was not answered locally by chooseHost", rep)
+		}
+		if direct {
+			// documented: the configured status and body, nothing else
+			if gotStatus != status || gotBody != body {
+				run.Fail("c17:direct-response:reply", fmt.Sprintf("direct response status=%d body=%q configured, reply has status=%d body=%q", status, body, gotStatus, gotBody), rep)
+			}
+			run.Count(fmt.Sprintf("%d|direct|%d", run.Seed, i), true, "local-reply:direct")
+			continue
+		}
+		// documented: scheme / host / path of the rule override the request's, query preserved; on a change of scheme the
+		// default port of the scheme left behind is dropped (":80" when going to https, ":443" when going to http)
+		wantCode := rc.ResponseCode
+		if wantCode == 0 {
+			wantCode = 301
+		}
+		scheme := asciiLower(rc.SchemeRedirect)
+		if scheme == "" {
+			scheme = cur[types.VarScheme]
+		}
+		host := rc.HostRedirect
+		if host == "" {
+			host = cur[types.VarHost]
+		}
+		path := rc.PathRedirect
+		if path == "" {
+			path = cur[types.VarPath]
+		}
+		stripped := false
+		if scheme != cur[types.VarScheme] {
+			if h, p, ok := hostPort(host); ok && ((scheme == "https" && p == "80") || (scheme == "http" && p == "443")) {
+				if strings.HasPrefix(host, "[") {
+					h = host[:strings.LastIndex(host, ":")]
+					h = strings.TrimSuffix(strings.TrimPrefix(h, "["), "]")
+				}
+				host, stripped = h, true
+			}
+		}
+		want := scheme + ":"
+		if host != "" || path != "" {
+			want += "//"
+		}
+		want += host + path
+		if cur[types.VarQueryString] != "" {
+			want += "?" + cur[types.VarQueryString]
+		}
+		ipv6 := strings.Contains(host, ":") && !strings.Contains(host, "]") && stripped
+		if !ipv6 && (gotStatus != wantCode || gotLoc != want) {
+			run.Fail("c17:redirect:reply", fmt.Sprintf("redirect %+v on %v: reply should be %d location %q, is %d location %q", rc, cur, wantCode, want, gotStatus, gotLoc), rep)
+		}
+		run.Count(fmt.Sprintf("%d|url|%d", run.Seed, i), true, "local-reply:redirect", fmt.Sprintf("port-stripped=%v", stripped))
+		if stripped {
+			run.Sample(map[string]interface{}{"redirect": rc, "current": cur, "location": gotLoc})
+		}
+		sh.Add(fmt.Sprintf("CUrl (Build_redirect_cfg %s %s %s %s, (%s, %s, %s, %s), (%s, %s))", CoqNat(rc.ResponseCode), CoqString(rc.PathRedirect), CoqString(rc.HostRedirect), CoqString(rc.SchemeRedirect),
+			CoqString(cur[types.VarScheme]), CoqString(cur[types.VarHost]), CoqString(cur[types.VarPath]), CoqString(cur[types.VarQueryString]), CoqNat(gotStatus), CoqString(gotLoc)), rep)
 		flush()
 	}
 	sh.Close()
